@@ -6,7 +6,8 @@
    is in Spec/C05.v. *)
 From V Require Import Model.Sort Spec.C04 Proofs.C04.Compose.   (* before Spec.C05: `topo` below is Spec.C05.topo *)
 From V Require Import Base.Bits Gen.WireOps Model.SimKernel Spec.C05
-                      Proofs.C05.ListAux Proofs.C05.Edge Proofs.C05.Split Proofs.C05.Examples Proofs.C05.Sorted.
+                      Proofs.C05.ListAux Proofs.C05.Edge Proofs.C05.Split Proofs.C05.Examples Proofs.C05.Sorted Proofs.C05.SequenceBlock.
+From V Require Import Gen.Helpers Gen.Seq.
 
 (* ---- (1) the post-edge state does not depend on the evaluation order of the sequential blocks ----------------
    ds' = the same drivers in another (dict) order, each with its clockables in another order.  If every wire is
@@ -220,3 +221,30 @@ Print Assumptions C05_ordered_of_topo.
 Print Assumptions C05_propagateAll_idempotent_sorted.
 Print Assumptions C05_clk_split_sorted.
 Print Assumptions C05_clk_single_steps_sorted.
+
+(* ---- the stimulus block Sequence (anchor: py4hw/logic/simulation.py Sequence.clock), REGENERATED as Gen.Seq.Sequence_clock --------------
+   seq_run w vals n once k st = k edges of the regenerated clock(): (final state, the k values prepared on r).  From power-up (i = 0):
+   wrapping mode prepares values[j mod n] at edge j, one-shot mode values[min j (n-1)]; every prepared value is in the wire's range and
+   the index stays in [0, n) (so values[i] never raises IndexError when n = len(values) > 0). *)
+Theorem C05_sequence_wrapping : forall w vals n k, 0 < n ->
+  seq_run w vals n 0 k {| Sequence_s_i := 0 |} =
+  ({| Sequence_s_i := Z.of_nat k mod n |}, map (fun j => Wire_prepare w (getZ vals (Z.of_nat j mod n))) (seq 0 k)).
+Proof. exact sequence_wrapping. Qed.
+Print Assumptions C05_sequence_wrapping.
+
+Theorem C05_sequence_once : forall w vals n once k, 0 < n -> once <> 0 ->
+  seq_run w vals n once k {| Sequence_s_i := 0 |} =
+  ({| Sequence_s_i := Z.min (Z.of_nat k) (n - 1) |}, map (fun j => Wire_prepare w (getZ vals (Z.min (Z.of_nat j) (n - 1)))) (seq 0 k)).
+Proof. exact sequence_once. Qed.
+Print Assumptions C05_sequence_once.
+
+Theorem C05_sequence_in_range : forall w vals once n k i0, 0 <= w -> 0 < n -> 0 <= i0 < n ->
+  Forall (fun v => 0 <= v < 2 ^ w) (snd (seq_run w vals n once k {| Sequence_s_i := i0 |})) /\
+  0 <= Sequence_s_i (fst (seq_run w vals n once k {| Sequence_s_i := i0 |})) < n.
+Proof. exact sequence_outputs_in_range. Qed.
+Print Assumptions C05_sequence_in_range.
+
+Example C05_sequence_runs :
+  snd (seq_run 4 [3; 17; 5; -1] 4 0 6 {| Sequence_s_i := 0 |}) = [3; 1; 5; 15; 3; 1] /\
+  snd (seq_run 3 [1; 2; 9] 3 1 5 {| Sequence_s_i := 0 |}) = [1; 2; 1; 1; 1].
+Proof. exact sequence_example. Qed.
